@@ -4,6 +4,7 @@
 #include <fcntl.h>
 #include <unistd.h>
 #include "hcommon.h"
+#include <libkdumpfile/addrxlat.h>
 #include "alloc.h"
 
 int main(void)
@@ -44,6 +45,25 @@ int main(void)
 				printf("> %s - -", kstatus_name(st));
 			if (alloc_live != live0) printf(" LEAK=%ld", alloc_live - live0);
 			printf("%s\n", c16_monitor(ctx, st));
+		} else if (sscanf(line, "kphys_off %" SCNu64, &addr) == 1) {
+			/* install KPHYSADDR -> MACHPHYSADDR = addr + off (a non-identity translation) */
+			addrxlat_ctx_t *ax; addrxlat_sys_t *sys; addrxlat_meth_t m; addrxlat_map_t *map;
+			addrxlat_range_t r = { ADDRXLAT_ADDR_MAX, ADDRXLAT_SYS_METH_KPHYS_MACHPHYS };
+			unsigned char tmp[8]; size_t n = 8;
+			kdump_attr_t vb; vb.type = KDUMP_NUMBER; vb.val.number = 48;
+			kdump_set_attr(ctx, "addrxlat.default.virt_bits", &vb);  /* x86-64: 4-level paging */
+			kdump_read(ctx, KDUMP_MACHPHYSADDR, 0, tmp, &n);      /* forces translation setup first */
+			if (kdump_get_addrxlat(ctx, &ax, &sys) != KDUMP_OK) { printf("> xlat-failed %s\n", kdump_get_err(ctx)); continue; }
+			memset(&m, 0, sizeof m);
+			m.kind = ADDRXLAT_LINEAR; m.target_as = ADDRXLAT_MACHPHYSADDR; m.param.linear.off = addr;
+			addrxlat_sys_set_meth(sys, ADDRXLAT_SYS_METH_KPHYS_MACHPHYS, &m);
+			map = addrxlat_map_new();
+			addrxlat_map_set(map, 0, &r);
+			addrxlat_sys_set_map(sys, ADDRXLAT_SYS_MAP_KPHYS_MACHPHYS, map);
+			addrxlat_sys_decref(sys); addrxlat_ctx_decref(ax);
+		} else if (sscanf(line, "cache %u", &as) == 1) {
+			kdump_attr_t at; at.type = KDUMP_NUMBER; at.val.number = as;
+			if (kdump_set_attr(ctx, "cache.size", &at) != KDUMP_OK) puts("> cache-failed");
 		} else if (sscanf(line, "probe %u %" SCNu64 " %u", &as, &addr, &ps) == 3) {
 			/* oracle discovery: one whole page */
 			size_t n = ps, i;
